@@ -17,6 +17,35 @@ partial def parseEntities : List String → Option (List Entity × List String)
 
 def b2s (b : Bool) : String := if b then "1" else "0"
 
+def parseLeaf (s : String) : Option Leaf :=
+  if s = "n" then some .null
+  else if s.startsWith "s" then (stringOfHex (String.ofList (s.toList.drop 1))).map .scalar
+  else if s.startsWith "f" then
+    match (String.ofList (s.toList.drop 1)).splitOn ":" with
+    | [a, b] => do
+        let sha ← stringOfHex a
+        let path ← stringOfHex b
+        pure (.file sha path)
+    | _ => none
+  else none
+
+def parseTok (s : String) : Option TokVal :=
+  if s = "l" then some (.list [])
+  else if s.startsWith "l" then ((String.ofList (s.toList.drop 1)).splitOn ";").mapM parseLeaf |>.map .list
+  else (parseLeaf s).map .leaf
+
+partial def parseToks : List String → Option (List (String × String × TokVal))
+  | [] => some []
+  | f :: n :: v :: r => do
+      let fresh ← stringOfHex f
+      let name ← stringOfHex n
+      let tok ← parseTok v
+      let rest ← parseToks r
+      pure ((fresh, name, tok) :: rest)
+  | _ => none
+
+def hexOrUnderscore (l : List String) : String := if l.isEmpty then "_" else ",".intercalate (l.map hexOfString)
+
 def handle : List String → String
   | "crate" :: rest =>
       match parseEntities rest with
@@ -30,6 +59,19 @@ def handle : List String → String
               " model-unique:" ++ b2s (idsUnique (emitted c)) ++ " model-size:" ++ toString (emitted c).length ++
               " model-archive:" ++ toString (archiveNames (fun _ => true) c.files []).length
           | none => "bad-op"
+      | none => "bad-op"
+  | "io" :: rest =>
+      match parseToks rest with
+      | some toks =>
+          let c0 := run [.put { id := "./" }, .put { id := "#run" }]
+          let c := registerAll c0 "#run" toks
+          let es := emitted c
+          let linked := (es.filter (·.id == "#run")).flatMap (·.refs)
+          let pvs := es.filter (fun e => e.name != "" && linked.contains e.id)
+          let files := es.filter (fun e => e.isFile && linked.contains e.id)
+          "pv:" ++ (if pvs.isEmpty then "_" else ";".intercalate (pvs.map (fun e => hexOfString e.name ++ "=" ++ hexOrUnderscore e.values ++
+            (if jsonValueIsScalar e then "!" else "")))) ++
+          " files:" ++ hexOrUnderscore (files.map (·.id)) ++ " unique:" ++ b2s (idsUnique es) ++ " closed:" ++ b2s (refsClosed es)
       | none => "bad-op"
   | _ => "bad-op"
 
